@@ -991,8 +991,16 @@ impl Compactor {
         let retention_nanos = self.config.retention_days as i64 * 24 * 3600 * 1_000_000_000;
         let cutoff = self.clock.retention_cutoff_nanos(retention_nanos);
 
-        // Find chunks older than retention period
-        let old_chunks = self.metadata.get_chunks(TimeRange::new(0, cutoff)).await?;
+        // Find chunks older than retention period. The range query returns every chunk that
+        // overlaps [0, cutoff]; only those whose newest row is older than the cut-off may go,
+        // a chunk straddling the cut-off still holds rows inside the retention window.
+        let old_chunks: Vec<_> = self
+            .metadata
+            .get_chunks(TimeRange::new(0, cutoff))
+            .await?
+            .into_iter()
+            .filter(|chunk| chunk.max_timestamp < cutoff)
+            .collect();
 
         if old_chunks.is_empty() {
             return Ok(());
